@@ -17,7 +17,12 @@ type Explorer struct {
 	// (the running one while it is enabled, else the lowest id) costs 1, whether
 	// or not the running goroutine was still enabled. The default (false) is
 	// preemption bounding, where switches at blocking points are free.
-	Delay     bool
+	Delay bool
+	// ExactOnly makes the explorer check (and count) only executions that use
+	// exactly Bound deviations; those with fewer are still run, because their
+	// extensions branch off them, but they were checked at a lower bound level
+	// (iterative bounding: level b is completed before level b+1 starts).
+	ExactOnly bool
 	Bound     int
 	MaxPoints int
 	Body      func()
@@ -62,10 +67,17 @@ func (x *Explorer) explore(prefix []int, from int) {
 		return
 	}
 	r := Run(prefix, x.MaxPoints, x.Body)
-	x.Executions++
 	if r.Diverged != "" {
 		x.Diverged = fmt.Sprintf("%s (prefix %v)", r.Diverged, prefix)
 		return
+	}
+	total := 0
+	for _, p := range r.Points {
+		total += x.Cost(p, p.Chosen)
+	}
+	counted := !x.ExactOnly || total == x.Bound
+	if counted {
+		x.Executions++
 	}
 	if len(r.Points) > x.MaxPts {
 		x.MaxPts = len(r.Points)
@@ -79,7 +91,7 @@ func (x *Explorer) explore(prefix []int, from int) {
 	if r.Horizon {
 		x.Horizons++
 	}
-	if x.Check != nil {
+	if x.Check != nil && counted {
 		x.Check(r)
 	}
 	// preemptions used before each point
